@@ -9,13 +9,17 @@ CONSTANTS
  MaxLog = 2
  Values = {1}
  AppendAnywhere = FALSE
- MaxTmo = 2
+ MaxTmo = 1
  MaxHb = 0
  MaxDup = 0
- MaxFlight = 3
+ MaxFlight = 2
  MaxRestart = 0
  InitMode = "elected"
 VIEW View
 CONSTRAINT Constraint
+INVARIANT ElectionSafety
+INVARIANT CommitAgreementNew
+INVARIANT CommitStableNew
+INVARIANT CommitMonotoneNew
+INVARIANT LeaderCompletenessNew
 CHECK_DEADLOCK FALSE
-INVARIANT LeaderCompleteness
